@@ -11,16 +11,16 @@ Open Scope list_scope.
 Definition cproj (t : string) : list string :=
   if String.eqb t "call:$1.Encode" then ["encode"]
   else if String.eqb t "call:$r.Dialer.DialContext" then ["dial"]
-  else if String.eqb t "call:conn.Write" then ["write"]
-  else if String.eqb t "call:conn.Read" then ["read"]
-  else if String.eqb t "call:conn.Close" then ["close"]
-  else if String.eqb t "call:cancel" then ["cancel"]
-  else if String.eqb t "call:retry.Stop" then ["stop"]
-  else if String.eqb t "inc:packetErrorCount" then ["count"]
+  else if String.eqb t "call:($r.Dialer.DialContext#0).Write" then ["write"]
+  else if String.eqb t "call:($r.Dialer.DialContext#0).Read" then ["read"]
+  else if String.eqb t "call:($r.Dialer.DialContext#0).Close" then ["close"]
+  else if String.eqb t "call:(context.WithCancel#1)" then ["cancel"]
+  else if String.eqb t "call:(time.NewTicker).Stop" then ["stop"]
+  else if String.eqb t "inc:(var int)" then ["count"]
   else if String.eqb t "call:panic" then ["panic"]
   (* anything else that could touch the socket, the ticker or shared state stays visible *)
-  else if String.prefix "call:conn." t then [t]
-  else if String.prefix "call:retry." t then [t]
+  else if String.prefix "call:($r.Dialer.DialContext#0)." t then [t]
+  else if String.prefix "call:(time.NewTicker)." t then [t]
   else if String.prefix "atomic." t then [t]
   else if String.prefix "close:" t then [t]
   else if String.prefix "send:" t then [t]
@@ -42,7 +42,7 @@ Variable request : packet.
 
 Definition ret_label (r : xret) : string :=
   match r with
-  | XPacket _ => "return:received,nil"
+  | XPacket _ => "return:(Parse#0),nil"
   | XErr e => if (e =? 9)%N then "return:nil,&NonAuthenticResponseError{}" else "return:nil,err"
   | XCtxErr => "return:nil,$0.Err()"
   | XNetErr => "return:nil,err"
